@@ -40,7 +40,10 @@ ENTRY = dict(
                    "sum 1, overhead = kappa^2 for every coefficient vector and after any sequence of reassignments; every row of the documented "
                    "table (parsed from docs/explanation/index.rst) is sound for the model. The model is compared with the implementation on "
                    ">1000 generated inputs per run (all 20 registered names, rzx/xx_plus_yy/xx_minus_yy, random local conjugations, Haar-random "
-                   "unitaries, arbitrary dyadic coefficient vectors).",
+                   "unitaries, arbitrary dyadic coefficient vectors); stream kakseq requests 4-8 locally conjugated registered gates of different "
+                   "families back to back on temporary UnitaryGate objects in one process and compares EVERY answer with the closed form of its own "
+                   "gate (chk_conj + judge), so an answer that depends on earlier requests (stale state not keyed on the gate's matrix) is a judged, "
+                   "replayable history.",
         level_note=STD_NOTE + "c15_gamma_table_ge1 / _rot / _consts are statements over Q and are closed under the global context (NO axiom): "
                    "kappa >= 1 at every rational point of the unit circle for the 16 registered names other than cs, csdg, csx, csxdg (premise "
                    "fixed_angle name = false; c15_gamma_table_excluded lists the four: their point (cos pi/8, sin pi/8) is irrational and the Q statement "
